@@ -21,6 +21,7 @@
     that the statements are false without it on the current code.
 -/
 import Sbepp.Lemmas.Iter
+import Sbepp.Lemmas.GroupTie
 
 namespace Sbepp.Properties.C12
 open Sbepp Sbepp.Rt Sbepp.Extracted Sbepp.CVal
@@ -361,5 +362,199 @@ example : ChainFits 1048580 (fun a => if a = 1048580 then 3 else if a = 1048583 
   rcases this with h | h | h | h <;> subst h <;> decide
 example : resize .u16 ⟨4, false⟩ [9, 9, 1, 1, 1, 1, 7, 7, 9] 2 ⟨.u64, 258⟩ = some [9, 9, 1, 1, 1, 1, 2, 1, 9] := by
   decide
+
+/-! ### laws of the one-line members whose hand definitions were added with the translator tie
+    (`size`, `empty`, the `!empty()` precondition of `front` / `back`, `front` of a nested group) -/
+
+/-- **`size()`** is the header's `numInGroup` -/
+theorem size_spec (NT : CTy) (g : Group) (hn : g.num < 2 ^ NT.bits) :
+    flatSize NT false g = .ok ⟨NT, g.num⟩ ∧ nestedSize NT false g = .ok ⟨NT, g.num⟩ := by
+  simp only [flatSize, nestedSize, Sbepp.Lemmas.GroupTie.headerCheck_false,
+    Sbepp.Lemmas.GroupTie.nestedHeaderCheck_false, Outcome.bind_ok, Outcome.pure_eq, groupSize, Nat.mod_eq_of_lt hn,
+    and_self]
+
+/-- **`empty()`** iff `size() == 0` -/
+theorem empty_spec (NT : CTy) (g : Group) (hn : g.num < 2 ^ NT.bits) :
+    flatEmpty NT false g = .ok (g.num == 0) ∧ nestedEmpty NT false g = .ok (g.num == 0) := by
+  have h := size_spec NT g hn
+  simp only [flatEmpty, nestedEmpty, h.1, h.2, Outcome.bind_ok, Outcome.pure_eq, and_self]
+
+/-- **`front()` / `back()` assert `!empty()`** in a checked build (the header being inside the view) -/
+theorem front_back_require_nonempty (NT BT : CTy) (g : Group) (hh : headerCheck g true = .ok ())
+    (h0 : g.num % 2 ^ NT.bits = 0) :
+    flatFront NT BT true g = .assertFailed 0 ∧ flatBack NT BT true g = .assertFailed 0 := by
+  simp only [flatFront, flatBack, hh, Outcome.bind_ok, assertNotEmpty, groupSize, h0, Bool.true_and, beq_self_eq_true,
+    if_true, Outcome.bind_assert, and_self]
+
+/-- **`front()` of a nested group** is the entry behind the header -/
+theorem nested_front_spec (NT BT : CTy) (hNT : DimTy NT) (hBT : DimTy BT) (g : Group) (wf : g.WF NT BT) :
+    nestedFront NT BT false g = .ok g.dataStart := by
+  simp only [nestedFront, nestedHeader_unchecked, assertNotEmpty, Bool.false_and, Bool.false_eq_true, if_false,
+    Outcome.bind_ok, nestedBegin_eval NT BT hNT hBT g wf, Outcome.pure_eq]
+
+example : flatEmpty .u8 false ⟨1048576, 5, 0, 2, 0⟩ = .ok true ∧ flatEmpty .u8 false gEx = .ok false := by decide
+example : flatFront .u8 .u32 true ⟨1048576, 5, 0, 2, 1048600⟩ = .assertFailed 0 := by decide
+example : headerCheck ⟨1048576, 5, 0, 2, 1048600⟩ true = .ok () := by decide
+
+/-! ### the same statements about the member functions as translated from the current `sbepp.hpp`
+
+  `Sbepp.Extracted.Group.{Flat, Nested, Fwd, Ra}.*` are regenerated from the C++ text of
+  `flat_group_base`, `nested_group_base`, `forward_iterator` and `random_access_iterator`
+  (constructor, `operator*`) on every check run (`extract/methods_group.py`);
+  `Lemmas/GroupTie.lean` proves each translated member function equal to the hand model
+  (`Flat.begin_tie` …).  So the theorems above are theorems about what the code says now; a
+  semantic edit of a member function breaks its tie and with it this module.  The remaining
+  operators of `random_access_iterator` are the extracted kernels the hand model already runs. -/
+
+section Extracted
+open Sbepp.Lemmas.GroupTie
+open Sbepp.Extracted.Group
+open Sbepp.Rt.GroupDsl (rangeFor)
+
+theorem begin_spec_extracted (NT BT : CTy) (hNT : DimTy NT) (hBT : DimTy BT) (g : Group) (wf : g.WF NT BT) :
+    Flat.begin NT BT false g = .ok (iterAt g 0) := by
+  rw [Flat.begin_tie]; exact begin_spec NT BT hNT hBT g wf
+
+theorem end_spec_extracted (NT BT : CTy) (hNT : DimTy NT) (hBT : DimTy BT) (g : Group) (wf : g.WF NT BT) :
+    Flat.end_ NT BT false g = .ok (iterAt g g.num) := by
+  rw [Flat.end_tie]; exact end_spec NT BT hNT hBT g wf
+
+/-- `begin() + size() == end()` with `begin`, `size`, `end` as translated -/
+theorem begin_plus_size_eq_end_partial_extracted (NT BT : CTy) (hNT : DimTy NT) (hBT : DimTy BT) (g : Group)
+    (wf : g.WF NT BT) (hrep : Representable NT.bits (g.num : Int)) :
+    (Flat.size NT BT false g >>= fun n => Flat.begin NT BT false g >>= fun b => plus NT BT b n)
+      = Flat.end_ NT BT false g := by
+  rw [Flat.size_tie, Flat.end_tie]
+  simp only [Flat.begin_tie, flatSize, headerCheck_false, Outcome.bind_ok, Outcome.pure_eq]
+  exact begin_plus_size_eq_end_partial NT BT hNT hBT g wf hrep
+
+theorem entry_address_subscript_extracted (NT BT : CTy) (hNT : DimTy NT) (hBT : DimTy BT) (g : Group)
+    (wf : g.WF NT BT) (i : Nat) (hi : i < g.num) (a : CVal) (hconv : conv NT a = wrap NT (i : Int)) :
+    Flat.subscript NT BT false g a = .ok (entryAddr g.dataStart g.bl i) := by
+  rw [Flat.subscript_tie]; exact entry_address_subscript NT BT hNT hBT g wf i hi a hconv
+
+theorem entry_address_front_extracted (NT BT : CTy) (hNT : DimTy NT) (hBT : DimTy BT) (g : Group) (wf : g.WF NT BT) :
+    Flat.front NT BT false g = .ok (entryAddr g.dataStart g.bl 0) := by
+  rw [Flat.front_tie]; exact entry_address_front NT BT hNT hBT g wf
+
+theorem entry_address_back_extracted (NT BT : CTy) (hNT : DimTy NT) (hBT : DimTy BT) (g : Group) (wf : g.WF NT BT)
+    (hne : 0 < g.num) :
+    Flat.back NT BT false g = .ok (entryAddr g.dataStart g.bl ((g.num - 1 : Nat) : Int)) := by
+  rw [Flat.back_tie]; exact entry_address_back NT BT hNT hBT g wf hne
+
+theorem entry_address_iteration_extracted (NT BT : CTy) (hNT : DimTy NT) (hBT : DimTy BT) (g : Group)
+    (wf : g.WF NT BT) (k : Nat) (hk : k ≤ g.num) :
+    (Flat.begin NT BT false g >>= fun b => incN NT BT false k b) = .ok (iterAt g k) := by
+  rw [Flat.begin_tie]; exact entry_address_iteration NT BT hNT hBT g wf k hk
+
+/-- the container laws of the one-line members, as translated -/
+theorem size_empty_extracted (NT BT : CTy) (g : Group) (hn : g.num < 2 ^ NT.bits) :
+    Flat.size NT BT false g = .ok ⟨NT, g.num⟩ ∧ Nested.size NT BT false g = .ok ⟨NT, g.num⟩
+    ∧ Flat.empty NT BT false g = .ok (g.num == 0) ∧ Nested.empty NT BT false g = .ok (g.num == 0) := by
+  rw [Flat.size_tie, Nested.size_tie, Flat.empty_tie, Nested.empty_tie]
+  exact ⟨(size_spec NT g hn).1, (size_spec NT g hn).2, (empty_spec NT g hn).1, (empty_spec NT g hn).2⟩
+
+theorem front_back_require_nonempty_extracted (NT BT : CTy) (g : Group)
+    (hh : Flat.get_header NT BT true g = .ok ()) (h0 : g.num % 2 ^ NT.bits = 0) :
+    Flat.front NT BT true g = .assertFailed 0 ∧ Flat.back NT BT true g = .assertFailed 0 := by
+  rw [Flat.get_header_tie] at hh
+  rw [Flat.front_tie, Flat.back_tie]
+  exact front_back_require_nonempty NT BT g hh h0
+
+theorem nested_front_extracted (NT BT : CTy) (hNT : DimTy NT) (hBT : DimTy BT) (g : Group) (wf : g.WF NT BT) :
+    Nested.front NT BT false g = .ok g.dataStart := by
+  rw [Nested.front_tie]; exact nested_front_spec NT BT hNT hBT g wf
+
+/-- forward iteration with the translated `begin` / `end` / `!=` / `*` / `++`: the range-`for` loop that
+    collects the entries visits exactly the specification's entry starts -/
+theorem forward_entry_chain_extracted (NT BT : CTy) (hNT : DimTy NT) (hBT : DimTy BT) (g : Group) (wf : g.WF NT BT)
+    (esize : Int → Nat) (hfit : ChainFits g.dataStart esize g.num) (fuel : Nat) (hfuel : g.num ≤ fuel) :
+    (do let b ← Nested.begin NT BT false g
+        let e ← Nested.end_ NT BT false g
+        rangeFor (Fwd.ne NT) (Fwd.deref false) (Fwd.inc NT BT false esize) e
+          (fun entry (acc : List Int) => pure (acc ++ [entry])) fuel b [])
+      = .ok (Spec.Group.starts g.dataStart esize g.num) := by
+  have hinc : (Fwd.inc NT BT false esize) = (fun it => fwdInc NT false it (esize it.ptr)) := by
+    funext it; exact Fwd.inc_tie NT BT false esize it
+  have hne : Fwd.ne NT = fwdNe NT := by funext a b; exact Fwd.ne_tie NT a b
+  have hd : Fwd.deref false = fwdDeref := by funext it; exact Fwd.deref_tie false it
+  have hfold : ∀ (l acc : List Int),
+      l.foldlM (fun (acc : List Int) (a : Int) => (Outcome.ok (acc ++ [a]) : Outcome (List Int))) acc = .ok (acc ++ l) := by
+    intro l
+    induction l with
+    | nil => intro acc; simp
+    | cons x xs ih => intro acc; simp only [List.foldlM_cons, Outcome.bind_ok, ih]; simp
+  have h := forward_entry_chain NT BT hNT hBT g wf esize hfit fuel hfuel
+  simp only [nestedEntries] at h
+  rw [Nested.begin_tie, Nested.end_tie, hinc, hne, hd]
+  cases hb : nestedBegin NT BT false g with
+  | ub => rw [hb] at h; exact h
+  | assertFailed i => rw [hb] at h; exact h
+  | ok b =>
+    rw [hb] at h
+    cases he : nestedEnd NT BT false g with
+    | ub => rw [he] at h; exact h
+    | assertFailed i => rw [he] at h; exact h
+    | ok e =>
+      rw [he] at h
+      simp only [Outcome.bind_ok] at h ⊢
+      have hf := walk_fold_fusion NT false esize e
+        (fun (acc : List Int) (a : Int) => (Outcome.ok (acc ++ [a]) : Outcome (List Int)))
+        (fun s a => ⟨_, rfl⟩) [] fuel b [] [] rfl
+      simp only [Outcome.pure_eq]
+      rw [← hf]
+      cases hw : fwdWalk NT false esize e fuel b [] with
+      | ub => rw [hw] at h; exact h
+      | assertFailed i => rw [hw] at h; exact h
+      | ok r =>
+        rw [hw] at h
+        simp only [Outcome.bind_ok, Outcome.pure_eq, Outcome.ok.injEq] at h ⊢
+        rw [hfold, h]; simp
+
+theorem nested_size_bytes_spec_extracted (NT BT : CTy) (hNT : DimTy NT) (hBT : DimTy BT) (g : Group)
+    (wf : g.WF NT BT) (esize : Int → Nat) (hfit : ChainFits g.dataStart esize g.num) (fuel : Nat)
+    (hfuel : g.num ≤ fuel) :
+    Nested.size_bytes NT BT false g esize fuel = .ok (Spec.Group.nestedSize g.addr g.hdr esize g.num).toNat := by
+  rw [Nested.size_bytes_tie]; exact nested_size_bytes_spec NT BT hNT hBT g wf esize hfit fuel hfuel
+
+/-- **`resize` / `clear` as translated write the `numInGroup` field and nothing else** (both group classes) -/
+theorem resize_writes_only_numInGroup_extracted (NT BT : CTy) (lay : DimLayout) (g : Group) (buf : List Nat)
+    (hoff : Nat) (count : CVal) (hin : hoff + lay.numOff + NT.bits / 8 ≤ buf.length) :
+    ∃ buf', Flat.resize NT BT false lay g buf hoff count = .ok (some buf')
+      ∧ Nested.resize NT BT false lay g buf hoff count = .ok (some buf')
+      ∧ Spec.Group.FrameOutside buf buf' (hoff + lay.numOff) (NT.bits / 8)
+      ∧ Spec.Group.slice buf' (hoff + lay.numOff) (NT.bits / 8)
+          = Spec.Group.putBytes lay.bigEndian (NT.bits / 8) (conv NT count).bits := by
+  obtain ⟨b, h1, h2, h3⟩ := resize_writes_only_numInGroup NT lay buf hoff count hin
+  refine ⟨b, ?_, ?_, h2, h3⟩
+  · rw [Flat.resize_tie]; simp only [flatResize, headerCheck_false, Outcome.bind_ok, Outcome.pure_eq, h1]
+  · rw [Nested.resize_tie]; simp only [nestedResize, nestedHeaderCheck_false, Outcome.bind_ok, Outcome.pure_eq, h1]
+
+theorem clear_writes_only_numInGroup_extracted (NT BT : CTy) (hNT : DimTy NT) (lay : DimLayout) (g : Group)
+    (buf : List Nat) (hoff : Nat) (hin : hoff + lay.numOff + NT.bits / 8 ≤ buf.length) :
+    ∃ buf', Flat.clear NT BT false lay g buf hoff = .ok (some buf')
+      ∧ Nested.clear NT BT false lay g buf hoff = .ok (some buf')
+      ∧ Spec.Group.FrameOutside buf buf' (hoff + lay.numOff) (NT.bits / 8)
+      ∧ Spec.Group.slice buf' (hoff + lay.numOff) (NT.bits / 8)
+          = Spec.Group.putBytes lay.bigEndian (NT.bits / 8) 0 := by
+  obtain ⟨b, h1, h2, h3⟩ := clear_writes_only_numInGroup NT hNT lay buf hoff hin
+  refine ⟨b, ?_, ?_, h2, h3⟩
+  · rw [Flat.clear_tie]
+    simp only [flatClear, flatResize, headerCheck_false, Outcome.bind_ok, Outcome.pure_eq]
+    exact congrArg Outcome.ok h1
+  · rw [Nested.clear_tie]
+    simp only [nestedClear, nestedResize, nestedHeaderCheck_false, Outcome.bind_ok, Outcome.pure_eq]
+    exact congrArg Outcome.ok h1
+
+/-- non-vacuity on the translated member functions -/
+example : Flat.subscript .u8 .u32 false gEx ⟨.i64, 150⟩ = .ok (gEx.dataStart + 300) := by decide
+example : Flat.back .u8 .u32 false gEx = .ok (gEx.dataStart + 398) := by decide
+example : Flat.front .u8 .u32 true ⟨1048576, 5, 0, 2, 1048600⟩ = .assertFailed 0 := by decide
+example : Nested.size_bytes .u16 .u16 false ⟨1048576, 4, 3, 2, 0⟩
+    (fun a => if a = 1048580 then 3 else if a = 1048583 then 6 else 4) 3 = .ok 17 := by decide
+example : Flat.resize .u16 .u16 false ⟨4, false⟩ gEx [9, 9, 1, 1, 1, 1, 7, 7, 9] 2 ⟨.u64, 258⟩
+    = .ok (some [9, 9, 1, 1, 1, 1, 2, 1, 9]) := by decide
+
+end Extracted
 
 end Sbepp.Properties.C12
